@@ -15,7 +15,9 @@ git -C "$W" apply "$PATCH" || { echo "patch does not apply"; exit 2; }
 MUT_DEMO=$(demo)
 git -C "$W" checkout -q -- . ; git -C "$W" clean -fdq
 cd /verif
+SINCE=$(date +%s)
 RES=$(tools/try_patch.sh "$PATCH" "$CHK" 2>&1)
+python3 tools/replays_to_corpus.py "$CHK" "$NAME" "$SINCE"
 VIOL=$(echo "$RES" | grep -c '^VIOLATION')
 SIGS=$(echo "$RES" | grep '^violation:' | cut -c1-300 | head -5)
 cp "$PATCH" "$OUT/patch.diff"; rm -rf "$OUT/demo"; cp -r "$DEMO" "$OUT/demo"; rm -f "$OUT/demo/go.sum"
